@@ -1,2 +1,283 @@
-(* Property C06 - statements only (proofs in Proofs/C06.v). Not built yet. *)
-From SC.Model Require Import Base.
+(* Property C06 - money literals, currency conversion and money arithmetic follow the rate table.
+   STATEMENTS ONLY (proofs: Proofs/C06.v).  Model functions: RuleFns.convert_money / read_currency /
+   get_money / get_currency (the conversion rule and its field accessors), Items.calculate on IMoney
+   with Items.convert_currency / rate_of (MoneyItem::calculate), Corr.step / Corr.run on
+   OUpdateCurrency and OExec (SmartCalc::update_currency, SmartCalc::execute), Run64.default_config
+   (the configuration loaded from the regenerated tables Gen/ConfigData.v).
+   Spec: Spec/Money.v (conv, upd, request, table_after, last_write).
+   Definitions used below and made in Proofs/C06.v: state_after (fold of step), updates_of / resolved
+   (the update requests of a history / the accepted ones by currency code), money_fields (the two
+   fields the conversion rule binds), table_codes, qconfig (the tables over exact rationals). *)
+From Coq Require Import QArith Qcanon Floats.
+From SC.Model Require Import Base Num NumF64 NumQ Types Config Case Chrono Parser RuleFns Items Lexer Api Run64 Corr.
+From SC.Spec Require Import Money.
+From SC.Gen Require Import RustConsts ConfigData.
+From SC.Proofs Require Import C06.
+
+(* ---------- the conversion rule ---------- *)
+
+(* exact characterisation for every number algebra: the rule fires iff the money field, the
+   target currency and both rates are there, and then computes (a / rA) * rB with the guarded
+   division, in this order (this fixes the binary64 reading), in the target currency *)
+Theorem C06_convert_exact : forall (G : Type) (NG : Num G) (cfg : config G) (vs : vars G) (fs : fields G),
+  convert_money cfg vs fs =
+  match get_money vs (s "money") fs, get_currency cfg vs (s "currency") fs with
+  | Some (a, A), Some B =>
+    match rate_of cfg A, rate_of cfg B with
+    | Some rA, Some rB => Ok (Some (TMoney (fmul (do_division a rA) rB) B))
+    | _, _ => Ok None
+    end
+  | _, _ => Ok None
+  end.
+Proof. exact (@convert_money_exact). Qed.
+
+(* over exact rationals: all amounts, all configurations, all pairs of currencies with a rate
+   (non-zero for the source): the result is a * rate(B) / rate(A) in currency B *)
+Theorem C06_convert : forall (cfg : config Qc) (vs : vars Qc) fs (a : Qc) A B rA rB,
+  get_money vs (s "money") fs = Some (a, A) ->
+  get_currency cfg vs (s "currency") fs = Some B ->
+  rate_of cfg A = Some rA -> rate_of cfg B = Some rB -> rA <> Q2Qc 0 ->
+  convert_money cfg vs fs = Ok (Some (TMoney (conv rA rB a) B)).
+Proof. exact convert_money_Q. Qed.
+
+(* the identity when A = B *)
+Theorem C06_convert_id : forall (cfg : config Qc) (vs : vars Qc) fs (a : Qc) A rA,
+  get_money vs (s "money") fs = Some (a, A) ->
+  get_currency cfg vs (s "currency") fs = Some A ->
+  rate_of cfg A = Some rA -> rA <> Q2Qc 0 ->
+  convert_money cfg vs fs = Ok (Some (TMoney a A)).
+Proof. exact convert_money_Q_id. Qed.
+
+(* ---------- money arithmetic ---------- *)
+
+(* every number algebra: + and - convert the RIGHT operand into the LEFT currency and keep the left
+   currency; * and / by a number keep the currency; money / money is a plain number *)
+Theorem C06_arith_ops : forall (G : Type) (NG : Num G) (bexec : config G -> str -> res (option G))
+    (cfg : config G) (a : G) A (b : G) B (n : G) nt,
+  calculate bexec cfg (IMoney a A) (IMoney b B) OAdd = Ok (Some (IMoney (fadd a (convert_currency cfg A b B)) A)) /\
+  calculate bexec cfg (IMoney a A) (IMoney b B) OSub = Ok (Some (IMoney (fsub a (convert_currency cfg A b B)) A)) /\
+  calculate bexec cfg (IMoney a A) (IMoney b B) ODiv = Ok (Some (INumber (do_division a (convert_currency cfg A b B)) Decimal)) /\
+  calculate bexec cfg (IMoney a A) (INumber n nt) OMul = Ok (Some (IMoney (fmul a n) A)) /\
+  calculate bexec cfg (IMoney a A) (INumber n nt) ODiv = Ok (Some (IMoney (do_division a n) A)).
+Proof. exact (@money_calc_ops). Qed.
+
+Theorem C06_convert_currency_ops : forall (G : Type) (NG : Num G) (cfg : config G) A (b : G) B rA rB,
+  rate_of cfg A = Some rA -> rate_of cfg B = Some rB ->
+  convert_currency cfg A b B = fmul (do_division b rB) rA.
+Proof. exact (@convert_currency_ops). Qed.
+
+(* over exact rationals: the table of the statement *)
+Theorem C06_arith : forall bexec (cfg : config Qc) (a : Qc) A (b : Qc) B rA rB (n : Qc) nt,
+  rate_of cfg A = Some rA -> rate_of cfg B = Some rB -> rB <> Q2Qc 0 ->
+  calculate bexec cfg (IMoney a A) (IMoney b B) OAdd = Ok (Some (IMoney (a + conv rB rA b)%Qc A)) /\
+  calculate bexec cfg (IMoney a A) (IMoney b B) OSub = Ok (Some (IMoney (a - conv rB rA b)%Qc A)) /\
+  calculate bexec cfg (IMoney a A) (IMoney b B) ODiv = Ok (Some (INumber (a / conv rB rA b)%Qc Decimal)) /\
+  calculate bexec cfg (IMoney a A) (INumber n nt) OMul = Ok (Some (IMoney (a * n)%Qc A)) /\
+  calculate bexec cfg (IMoney a A) (INumber n nt) ODiv = Ok (Some (IMoney (a / n)%Qc A)).
+Proof. exact money_calc_Q. Qed.
+
+(* ---------- rate updates and histories ---------- *)
+
+(* the model of BTreeMap::insert changes exactly the key inserted *)
+Theorem C06_assoc_insert : forall (A : Type) k k0 (v : A) l,
+  assoc k0 (assoc_insert k v l) = if str_eqb k0 k then Some v else assoc k0 l.
+Proof. exact (@assoc_insert_spec). Qed.
+
+(* an accepted update changes the rate of exactly that currency and nothing else in the state *)
+Theorem C06_update_accepted : forall ck m name r X,
+  read_currency (m_cfg m) name = Some X ->
+  let m' := fst (step ck m (OUpdateCurrency name r)) in
+  snd (step ck m (OUpdateCurrency name r)) = MRet (Some true) /\
+  rate_of (m_cfg m') X = Some r /\
+  (forall Y, Y <> X -> rate_of (m_cfg m') Y = rate_of (m_cfg m) Y) /\
+  m_cfg m' = set_rates (m_cfg m) (assoc_insert X r (cf_rates (m_cfg m))) /\
+  m_sessions m' = m_sessions m.
+Proof. exact update_accepted. Qed.
+
+(* update_currency returns false exactly for unknown names, and then changes nothing *)
+Theorem C06_update_refused : forall ck m name r,
+  read_currency (m_cfg m) name = None ->
+  step ck m (OUpdateCurrency name r) = (m, MRet (Some false)).
+Proof. exact update_refused. Qed.
+
+Theorem C06_update_false_iff : forall ck m name r,
+  snd (step ck m (OUpdateCurrency name r)) = MRet (Some false) <-> read_currency (m_cfg m) name = None.
+Proof. exact update_returns_false_iff. Qed.
+
+(* evaluation never changes the calculator and reads the configuration of its state *)
+Theorem C06_exec_keeps_state : forall ck m lang text,
+  fst (step ck m (OExec lang text)) = m /\
+  fst (step ck m (OExecFresh lang text)) = m /\
+  snd (step ck m (OExec lang text)) =
+    match execute LX ck (m_cfg m) lang text with Ok r => MRes r | Panic st => MPanic st end.
+Proof. exact exec_keeps_state. Qed.
+
+Theorem C06_exec_session_keeps_cfg : forall ck m sid, m_cfg (fst (step ck m (OExecSession sid))) = m_cfg m.
+Proof. exact exec_session_keeps_cfg. Qed.
+
+(* operations other than update_currency change neither the rates nor the currency tables *)
+Theorem C06_other_ops_keep_rates : forall ck m o,
+  (forall name r, o <> OUpdateCurrency name r) ->
+  cf_rates (m_cfg (fst (step ck m o))) = cf_rates (m_cfg m) /\
+  cf_currency (m_cfg (fst (step ck m o))) = cf_currency (m_cfg m) /\
+  cf_currency_alias (m_cfg (fst (step ck m o))) = cf_currency_alias (m_cfg m).
+Proof. exact other_ops_keep_rates. Qed.
+
+(* the names update_currency and the lexer understand never change *)
+Theorem C06_names_after : forall ck ops m n,
+  read_currency (m_cfg (state_after ck m ops)) n = read_currency (m_cfg m) n.
+Proof. exact read_currency_after. Qed.
+
+(* ALL histories (any operations of the protocol): the rate table is the fold of the accepted
+   updates over the model's BTreeMap insert ... *)
+Theorem C06_rates_after_fold : forall ck ops m,
+  cf_rates (m_cfg (state_after ck m ops)) =
+  fold_left (fun l u => assoc_insert (fst u) (snd u) l) (resolved (m_cfg m) ops) (cf_rates (m_cfg m)).
+Proof. exact rates_after_fold. Qed.
+
+(* ... and, read as a function from codes to rates, it is the reference table of Spec/Money.v *)
+Theorem C06_rates_after : forall ck ops m Y,
+  rate_of (m_cfg (state_after ck m ops)) Y =
+  table_after (read_currency (m_cfg m)) (rate_of (m_cfg m)) (updates_of ops) Y.
+Proof. exact rates_after. Qed.
+
+(* the reference table: the last accepted request for a currency wins, a currency no accepted
+   request names keeps its rate *)
+Theorem C06_table_last_write : forall (R : Type) resolve (us : list (str * R)) t Y,
+  table_after resolve t us Y = match last_write resolve Y us None with Some r => Some r | None => t Y end.
+Proof. exact (@table_after_last_write). Qed.
+
+Theorem C06_last_write_wins : forall ck m pre name r post X,
+  read_currency (m_cfg m) name = Some X ->
+  (forall n' r' X', In (n', r') (updates_of post) -> read_currency (m_cfg m) n' = Some X' -> X' <> X) ->
+  rate_of (m_cfg (state_after ck m (pre ++ OUpdateCurrency name r :: post))) X = Some r.
+Proof. exact last_write_wins. Qed.
+
+Theorem C06_untouched : forall ck m ops Y,
+  (forall n r X, In (n, r) (updates_of ops) -> read_currency (m_cfg m) n = Some X -> X <> Y) ->
+  rate_of (m_cfg (state_after ck m ops)) Y = rate_of (m_cfg m) Y.
+Proof. exact untouched. Qed.
+
+(* what is observed at a position of a history (Corr.run) *)
+Theorem C06_update_in_history : forall ck m pre name r post,
+  run ck m (pre ++ OUpdateCurrency name r :: post) =
+  run ck m pre ++
+  MRet (Some (match read_currency (m_cfg m) name with Some _ => true | None => false end)) ::
+  run ck (state_after ck m (pre ++ [OUpdateCurrency name r])) post.
+Proof. exact update_in_history. Qed.
+
+Theorem C06_exec_in_history : forall ck m pre lang text post,
+  run ck m (pre ++ OExec lang text :: post) =
+  run ck m pre ++
+  (match execute LX ck (m_cfg (state_after ck m pre)) lang text with Ok r => MRes r | Panic st => MPanic st end) ::
+  run ck (state_after ck m pre) post.
+Proof. exact exec_in_history. Qed.
+
+(* histories of rate updates and evaluations only: the whole state *)
+Theorem C06_money_history_state : forall ck ops m, money_history ops = true ->
+  state_after ck m ops =
+  with_cfg m (set_rates (m_cfg m)
+               (fold_left (fun l u => assoc_insert (fst u) (snd u) l) (resolved (m_cfg m) ops) (cf_rates (m_cfg m)))).
+Proof. exact money_history_state. Qed.
+
+(* ---------- the regenerated tables ---------- *)
+
+Theorem C06_default_tables :
+  cf_currency default_config = d_currency /\ cf_currency_alias default_config = d_currency_alias /\
+  cf_rates default_config = d_rates.
+Proof. exact default_tables. Qed.
+
+(* every currency of the table is found under its code written in any letter case *)
+Theorem C06_code_any_case : forall code name,
+  In code (table_codes default_config) ->
+  to_lowercase name = to_lowercase code ->
+  read_currency default_config name = Some code.
+Proof. exact code_found_any_case. Qed.
+
+Theorem C06_code_lower_upper : forall code,
+  In code (table_codes default_config) ->
+  read_currency default_config (to_lowercase code) = Some code /\
+  read_currency default_config (to_uppercase code) = Some code /\
+  read_currency default_config code = Some code.
+Proof. exact code_found_lower_upper. Qed.
+
+(* every currency that has a rate is a currency of the table *)
+Theorem C06_rated_any_case : forall A name,
+  rate_of default_config A <> None ->
+  to_lowercase name = to_lowercase A ->
+  read_currency default_config name = Some A.
+Proof. exact rated_found_any_case. Qed.
+
+(* every alias resolves to a currency of the table that has a rate *)
+Theorem C06_alias_resolves : forall al key,
+  In (al, key) (cf_currency_alias default_config) ->
+  exists cur, assoc key (cf_currency default_config) = Some cur /\
+              read_currency default_config al = Some (c_code cur) /\
+              read_currency default_config (to_uppercase al) = Some (c_code cur) /\
+              rate_of default_config (c_code cur) <> None.
+Proof. exact alias_resolves. Qed.
+
+(* all rates are finite and positive at binary64, non-zero as exact decimals *)
+Theorem C06_rates_finite_positive : forall A r,
+  rate_of default_config A = Some r -> fcls r = FFinite /\ fltb f0 r = true.
+Proof. exact rates_finite_positive. Qed.
+
+Theorem C06_rates_nonzero_Q : forall A r, rate_of qconfig A = Some r -> r <> Q2Qc 0.
+Proof. exact q_rates_nonzero. Qed.
+
+(* all ordered pairs of rated currencies of the table, all amounts, the target currency written
+   in any letter case: exact rationals (the formula) and binary64 (the operation sequence) *)
+Theorem C06_all_pairs : forall (vs : vars Qc) (a : Qc) A B rA rB name,
+  rate_of qconfig A = Some rA -> rate_of qconfig B = Some rB ->
+  to_lowercase name = to_lowercase B ->
+  convert_money qconfig vs (money_fields a A name) = Ok (Some (TMoney (conv rA rB a) B)).
+Proof. exact all_pairs_Q. Qed.
+
+Theorem C06_all_pairs_f64 : forall (vs : vars float) (a : float) A B rA rB name,
+  rate_of default_config A = Some rA -> rate_of default_config B = Some rB ->
+  to_lowercase name = to_lowercase B ->
+  convert_money default_config vs (money_fields a A name)
+  = Ok (Some (TMoney (fmul (do_division a rA) rB) B)).
+Proof. exact all_pairs_f64. Qed.
+
+(* ... and in every state reachable from the initial one by any history, with the rates current
+   at that point (a currency that received its first rate by an update included) *)
+Theorem C06_reachable_all_pairs : forall ck ops (vs : vars float) (a : float) A B rA rB name,
+  let cfg := m_cfg (state_after ck init_state ops) in
+  rate_of cfg A = Some rA -> rate_of cfg B = Some rB ->
+  to_lowercase name = to_lowercase B ->
+  convert_money cfg vs (money_fields a A name) = Ok (Some (TMoney (fmul (do_division a rA) rB) B)).
+Proof. exact reachable_all_pairs. Qed.
+
+Print Assumptions C06_convert_exact.
+Print Assumptions C06_convert.
+Print Assumptions C06_convert_id.
+Print Assumptions C06_arith_ops.
+Print Assumptions C06_convert_currency_ops.
+Print Assumptions C06_arith.
+Print Assumptions C06_assoc_insert.
+Print Assumptions C06_update_accepted.
+Print Assumptions C06_update_refused.
+Print Assumptions C06_update_false_iff.
+Print Assumptions C06_exec_keeps_state.
+Print Assumptions C06_exec_session_keeps_cfg.
+Print Assumptions C06_other_ops_keep_rates.
+Print Assumptions C06_names_after.
+Print Assumptions C06_rates_after_fold.
+Print Assumptions C06_rates_after.
+Print Assumptions C06_table_last_write.
+Print Assumptions C06_last_write_wins.
+Print Assumptions C06_untouched.
+Print Assumptions C06_update_in_history.
+Print Assumptions C06_exec_in_history.
+Print Assumptions C06_money_history_state.
+Print Assumptions C06_default_tables.
+Print Assumptions C06_code_any_case.
+Print Assumptions C06_code_lower_upper.
+Print Assumptions C06_rated_any_case.
+Print Assumptions C06_alias_resolves.
+Print Assumptions C06_rates_finite_positive.
+Print Assumptions C06_rates_nonzero_Q.
+Print Assumptions C06_all_pairs.
+Print Assumptions C06_all_pairs_f64.
+Print Assumptions C06_reachable_all_pairs.
